@@ -559,6 +559,37 @@ fn scaled3(a: &mut Args) -> String {
     format!("A {} S {} F {}", b(aabb_eq), dump(&sm), dump(&fr))
 }
 
+/// `pnsign3`: <mesh> <nops> <op>* <n> { (`v` vid 0 | `e` tri slot) px py pz fx fy fz }*
+/// For every item: `is_inside` of the real `project_local_point_and_get_location(p, true)` (the pseudo-normal sign test of
+/// point_composite_shape.rs) and, for a vertex feature, the dot product `(p - vertices[vid]) . vertices_pseudo_normal[vid]`
+/// the test evaluates when the closest point is that vertex (`-` for an edge feature).  `f` (the point of the feature closest
+/// to `p`, as constructed by the generator) is only read by the model (edge items) and the oracle.
+fn pnsign3(a: &mut Args) -> String {
+    use crate::p3::math::Point;
+    use crate::p3::query::PointQueryWithLocation;
+    let m0 = read_mesh(a, 3);
+    let ops = read_ops(a, 3);
+    let n = a.u();
+    let items: Vec<(bool, usize, usize, Point<f64>)> = (0..n).map(|_| {
+        let isv = a.tok() == "v"; let i0 = a.u() as usize; let i1 = a.u() as usize;
+        let p = Point::new(a.f(), a.f(), a.f()); let _f = (a.f(), a.f(), a.f());
+        (isv, i0, i1, p) }).collect();
+    let mesh = match h3::run_ops(&m0, &ops) { Some(m) => m, None => return "nobuild".into() };
+    items.iter().map(|(isv, i0, i1, p)| {
+        let pn = match mesh.pseudo_normals() { Some(pn) => pn, None => return "nopn".to_string() };
+        let r = catch_unwind(AssertUnwindSafe(|| mesh.project_local_point_and_get_location(p, true).0.is_inside));
+        let ins = match r { Ok(x) => b(x).to_string(), Err(_) => "panic".to_string() };
+        if *isv {
+            if *i0 >= mesh.vertices().len() || *i0 >= pn.vertices_pseudo_normal.len() { return "bad".to_string(); }
+            let d = p - mesh.vertices()[*i0];
+            format!("{} {}", ins, ff(d.dot(&pn.vertices_pseudo_normal[*i0])))
+        } else {
+            if *i0 >= pn.edges_pseudo_normal.len() || *i1 > 2 { return "bad".to_string(); }
+            format!("{} -", ins)
+        }
+    }).collect::<Vec<_>>().join(" ")
+}
+
 pub fn exec(func: &str, a: &mut Args) -> String {
     match func {
         "hist3" | "hist3w" | "hist3s" => h3::hist(a),
@@ -566,6 +597,7 @@ pub fn exec(func: &str, a: &mut Args) -> String {
         "histq3" => h3::histq(a),
         "histq2" => h2::histq(a),
         "contains3" => contains3(a),
+        "pnsign3" => pnsign3(a),
         "bvhq3" => h3::bvhq(a),
         "bvhq2" => h2::bvhq(a),
         "boxscale3" => h3::boxscale(a),
@@ -804,6 +836,109 @@ fn gen_contains(r: &mut Rng) -> String {
     s
 }
 
+/// closed convex pyramids over irregular lattice polygons: thin spikes (high apex), flat caps (low apex), oblique apices.
+/// Around the apex of a spike the faces are seen from different sides by points of the normal cone: the region the
+/// same-side theorem (`vertex_sign_partial`) does not cover.
+fn spike_mesh(r: &mut Rng) -> RawMesh {
+    let polys: [&[(f64, f64)]; 5] = [
+        &[(0.0, 0.0), (4.0, 0.0), (0.0, 1.0)],
+        &[(0.0, 0.0), (6.0, 0.0), (6.0, 1.0), (0.0, 1.0)],
+        &[(0.0, 0.0), (4.0, 0.0), (6.0, 2.0), (3.0, 4.0), (-1.0, 2.0)],
+        &[(1.0, 0.0), (3.0, 0.0), (4.0, 2.0), (3.0, 4.0), (1.0, 4.0), (0.0, 2.0)],
+        &[(0.0, 0.0), (2.0, 0.0), (3.0, 1.0), (3.0, 2.0), (2.0, 3.0), (0.0, 3.0), (-1.0, 2.0), (-1.0, 1.0)],
+    ];
+    let poly = polys[r.below(5) as usize];
+    let k = poly.len();
+    let (mut cx, mut cy) = (0.0, 0.0);
+    for p in poly { cx += p.0; cy += p.1; }
+    // apex above the (rounded) centroid, or shifted sideways (oblique, possibly outside the footprint: still convex)
+    let ax = (cx / k as f64 * 2.0).round() / 2.0 + if r.below(3) == 0 { r.range(-3, 3) as f64 } else { 0.0 };
+    let ay = (cy / k as f64 * 2.0).round() / 2.0 + if r.below(3) == 0 { r.range(-3, 3) as f64 } else { 0.0 };
+    let h = *r.pick(&[0.25, 1.0, 4.0, 16.0, 64.0]);
+    let mut v: Vec<Vec<f64>> = poly.iter().map(|p| vec![p.0, p.1, 0.0]).collect();
+    v.push(vec![ax, ay, h]);
+    let mut i = vec![];
+    for j in 1..k - 1 { i.push([0u32, (j + 1) as u32, j as u32]); }                       // base, facing -z
+    for j in 0..k { i.push([j as u32, ((j + 1) % k) as u32, k as u32]); }                   // sides
+    let tr: Vec<f64> = (0..3).map(|_| r.range(-3, 3) as f64).collect();
+    for p in v.iter_mut() { for c in 0..3 { p[c] += tr[c]; } }
+    let mut m = RawMesh { v, i, f: 0 };
+    if r.below(3) == 0 { m = soupify(&m); m.f = MERGE; }
+    m.f |= ORIENTED;
+    if r.bool() { m.f |= *r.pick(&[HET, CC, HET | CC, DEL_DEGEN | MERGE, DEL_DUP | MERGE, FIX7 | MERGE, DEL_BAD]); }
+    m
+}
+
+/// `pnsign3` cases: a closed outward-oriented mesh (spikes two times out of three), an orientation-preserving history, and
+/// points `f + s * d` where `f` is a vertex (or a point of an edge) of the final mesh and `d` a non-negative combination of
+/// the normals of the faces around it (the normal cone when the feature is convex); for the non-convex mesh also `-d`.
+fn gen_pnsign(r: &mut Rng) -> String {
+    let m = if r.below(3) == 0 { closed_mesh(r) } else { spike_mesh(r) };
+    let mut ops = vec![];
+    for _ in 0..r.below(3) {
+        match r.below(3) {
+            0 => { ops.push(RawOp::Rev); ops.push(RawOp::Rev); }
+            1 => ops.push(RawOp::Sf(m.f | *r.pick(&[HET, CC, MERGE, DEL_DEGEN | MERGE, DEL_BAD, FIX7 | MERGE]))),
+            _ => ops.push(RawOp::Sf(ORIENTED | (m.f & MERGE))),
+        }
+    }
+    use crate::p3::math::Point;
+    use crate::p3::query::PointQuery;
+    use crate::p3::shape::{TriMesh, TriMeshFlags};
+    let fm = h3::run_ops(&m, &ops).expect("closed mesh history");
+    // flagless copy of the final buffers: only its distance query is used, to keep the points whose closest point is `f`
+    let refm = TriMesh::with_flags(fm.vertices().to_vec(), fm.indices().to_vec(), TriMeshFlags::empty()).unwrap();
+    let vs: Vec<[f64; 3]> = fm.vertices().iter().map(|p| [p[0], p[1], p[2]]).collect();
+    let idx: Vec<[u32; 3]> = fm.indices().to_vec();
+    let sub = |a: [f64; 3], b2: [f64; 3]| [a[0] - b2[0], a[1] - b2[1], a[2] - b2[2]];
+    let cross = |a: [f64; 3], b2: [f64; 3]| [a[1] * b2[2] - a[2] * b2[1], a[2] * b2[0] - a[0] * b2[2], a[0] * b2[1] - a[1] * b2[0]];
+    let normal = |t: &[u32; 3]| cross(sub(vs[t[1] as usize], vs[t[0] as usize]), sub(vs[t[2] as usize], vs[t[0] as usize]));
+    let lam = |r: &mut Rng| *r.pick(&[0.0, 0.0, 0.125, 0.25, 0.5, 1.0, 1.0]);
+    let mut items = vec![];
+    let mut guard = 0;
+    while items.len() < 6 && guard < 300 {
+        guard += 1;
+        let mut d = [0.0f64; 3];
+        let (head, f): (String, [f64; 3]);
+        if r.bool() {
+            let vid = r.below(vs.len() as u64) as usize;
+            for t in idx.iter().filter(|t| t.contains(&(vid as u32))) {
+                let n = normal(t); let l = lam(r);
+                for c in 0..3 { d[c] += l * n[c]; }
+            }
+            head = format!("v {} 0", vid); f = vs[vid];
+        } else {
+            let ti = r.below(idx.len() as u64) as usize; let slot = r.below(3) as usize;
+            let (ia, ib) = match slot { 0 => (idx[ti][0], idx[ti][1]), 1 => (idx[ti][1], idx[ti][2]), _ => (idx[ti][2], idx[ti][0]) };
+            for t in idx.iter().filter(|t| t.contains(&ia) && t.contains(&ib)) {
+                let n = normal(t); let l = lam(r);
+                for c in 0..3 { d[c] += l * n[c]; }
+            }
+            let (pa, pb) = (vs[ia as usize], vs[ib as usize]);
+            let tt = *r.pick(&[0.25, 0.5, 0.75]);
+            head = format!("e {} {}", ti, slot); f = [pa[0] + (pb[0] - pa[0]) * tt, pa[1] + (pb[1] - pa[1]) * tt, pa[2] + (pb[2] - pa[2]) * tt];
+        }
+        let mx = d.iter().fold(0.0f64, |a2, x| a2.max(x.abs()));
+        if mx == 0.0 { continue; }
+        // bring the offset to a size between 1/8 and 2 with a power of two (keeps the point exactly representable)
+        let mut s = *r.pick(&[0.25, 1.0, 2.0]);
+        while mx * s > 2.0 { s *= 0.5; }
+        while mx * s < 0.125 { s *= 2.0; }
+        if r.below(3) == 0 { s = -s; }
+        let p = [f[0] + s * d[0], f[1] + s * d[1], f[2] + s * d[2]];
+        // `f` lies on the mesh, so dist(p, mesh) <= |p - f|, with equality iff `f` is a closest point: keep those only
+        // (the model evaluates the test with the pseudo-normal of the feature of `f`)
+        let pf = ((p[0] - f[0]).powi(2) + (p[1] - f[1]).powi(2) + (p[2] - f[2]).powi(2)).sqrt();
+        let dist = refm.distance_to_local_point(&Point::new(p[0], p[1], p[2]), false);
+        if dist < 1.0e-3 || dist < pf * (1.0 - 1.0e-9) { continue; }
+        items.push(format!("{} {} {}", head, hxs(p.iter()), hxs(f.iter())));
+    }
+    let mut s = show_case(&m, &ops);
+    s.push_str(&format!(" {}", items.len()));
+    for it in &items { s.push(' '); s.push_str(it); }
+    s
+}
+
 /// Two-step histories of the shape "build without a deleting flag, then `set_flags` with deleting flags": a clean base mesh
 /// into which degenerate (repeated index / coincident vertices), duplicate (same, rotated, flipped indices) and
 /// bad-topology (a directed edge used twice) triangles are inserted FIRST, LAST or in the middle of the index buffer.
@@ -971,6 +1106,10 @@ pub fn gen(r: &mut Rng, thorough: bool) -> Vec<(String, String)> {
     for _ in 0..(if thorough { 3000 } else { 300 }) {
         if let Some(c) = gen_bvhq(r, 3) { out.push(("bvhq3".to_string(), c)); }
         if let Some(c) = gen_bvhq(r, 2) { out.push(("bvhq2".to_string(), c)); }
+    }
+    // pseudo-normal sign test at vertices / edges of closed meshes (spikes: faces seen from different sides)
+    for _ in 0..(if thorough { 4000 } else { 400 }) {
+        out.push(("pnsign3".to_string(), gen_pnsign(r)));
     }
     out
 }
